@@ -10,6 +10,13 @@ RULE = ("E1/FULL: real Monitor; runs of S-plan/S-contend/S-batch/S-buffer "
         "per observation: exactly one entry for each of the 8 life-cycle "
         "transitions, each stamped with the instant at which the harness saw "
         "the transition itself, causal order, finished-started == duration; "
+        "the same oracle on much wider sets (S-plan/S-contend/S-buffer "
+        "thinned 6/3/3 in quick and unthinned in thorough, S-batch, S-park, "
+        "S-offgrid, S-ids, and EVERY S-buffer history in which a workflow "
+        "ends during a tier move, selected by a LIGHT pre-pass) in 'events' "
+        "mode = real Monitor loop and real collate_events without the "
+        "per-step dataframes, whose log is compared with the FULL-mode log "
+        "on every fourth FULL case; "
         "non-trivial = observation starting at t>0 or two observations")
 
 KINDS = (("telescope", "started"), ("telescope", "finished"),
@@ -115,11 +122,62 @@ def judge(case, r, qw):
     return vs
 
 
-def execute(case):
+def execute(case, mode=False):
+    """mode False: FULL (real Monitor); "events": real Monitor loop and real
+    collate_events, per-step dataframes left out (13x cheaper)."""
     qw = QueueWatch()
-    r = runmod.execute(case, [qw], (), e1.horizon_of(case), light=False,
+    r = runmod.execute(case, [qw], (), e1.horizon_of(case), light=mode,
                        keep_snaps=False)
     return r, qw
+
+
+class _TierOverlap:
+    """Selects histories in which a workflow completes (hot buffer release)
+    while a tier move is in flight."""
+
+    def start(self, run):
+        self.n, self.hit = 0, False
+
+    def on_event(self, run):
+        calls = run.probe.calls
+        while self.n < len(calls):
+            c = calls[self.n]
+            self.n += 1
+            if c["kind"] == "hot_remove" and \
+                    run.sim.buffer.hot[0].observations['transfer'] is not None:
+                self.hit = True
+
+
+def events_cases(tier, seed):
+    """Wider sets run in "events" mode."""
+    lvl = "thorough" if tier == "thorough" else "quick"
+    q = tier != "thorough"
+    sh = lambda c: common.shipped(c, lvl, "diag", False)
+    plan = common.add_algs(list(common.plan_scope(lvl)), sh)
+    con = common.add_algs(list(common.contend(lvl)), sh)
+    buf = common.add_algs(list(common.buffer_scope(lvl)), sh)
+    bat = common.add_algs(list(common.batch_scope(lvl)),
+                          lambda c: common.batch_algs(c, lvl)[:4])
+    park = common.add_algs(list(common.park_scope(lvl)),
+                           lambda c: common.park_algs(c, lvl))
+    off = common.add_algs(list(common.offgrid_scope(lvl)), sh)
+    ids = common.add_algs(list(common.ids_scope(lvl)), sh)
+    # coverage-directed subset: every S-buffer history in which a workflow
+    # finishes during a tier move (selected by a LIGHT pre-pass)
+    def pre(i, item):
+        w = _TierOverlap()
+        runmod.execute(item[1], [w], (), e1.horizon_of(item[1]), light=True)
+        return w.hit
+    hits, _ = engine.parallel_map(pre, buf, chunk=20)
+    directed = [("S-buffer/workflow-ends-during-tier-move", c)
+                for (sc, c), h in zip(buf, hits) if h]
+    if q:
+        plan, con, buf = (common.thin(plan, 6), common.thin(con, 3),
+                          common.thin(buf, 3))
+        ids = common.thin(ids, 2)
+    out = plan + con + buf + bat + park + off + ids
+    return common.rotate([(sc + "/events-mode", c) for sc, c in out]
+                         + directed, seed), len(directed)
 
 
 def cases(tier, seed):
@@ -157,18 +215,33 @@ def run(rep, tier, seed):
         T = int(r0.end_time) + 2
         for k in range(1, T):
             paused.append((sc + "/paused", dict(case, pauses=[k, T])))
-    items = cs + paused
+    evs, ndirected = events_cases(tier, seed)
+    rep.extra["histories_with_workflow_end_during_tier_move"] = ndirected
+    items = [(sc, c, False) for sc, c in cs + paused] + \
+        [(sc, c, "events") for sc, c in evs]
+    nfull = len(cs) + len(paused)
 
     def work(i, item):
-        sc, case = item
-        r, qw = execute(case)
+        sc, case, mode = item
+        r, qw = execute(case, mode)
         if r.outcome != "returned":
-            return ([], r.probe.n_events, False, r.outcome)
+            return ([], r.probe.n_events, False, r.outcome, True)
         nt = len(case["cfg"]["obs"]) > 1 or any(
             o["start"] > 0 for o in case["cfg"]["obs"])
-        return (judge(case, r, qw), r.probe.n_events, nt, r.outcome)
-    res, _ = engine.parallel_map(work, items)
-    for (sc, case), (vs, ne, nt, outcome) in zip(items, res):
+        same = True
+        if mode is False and not case.get("pauses") and i % 4 == 0:
+            # conformance of the cheaper mode: same event log, all columns
+            r2, _ = execute(case, "events")
+            same = (full.event_rows_all(r2.sim.monitor.events)
+                    == full.event_rows_all(r.sim.monitor.events))
+        return (judge(case, r, qw), r.probe.n_events, nt, r.outcome, same)
+    res, _ = engine.parallel_map(work, items,
+                                 heavy_first=lambda it: it[2] is False)
+    for (sc, case, mode), (vs, ne, nt, outcome, same) in zip(items, res):
+        if not same:
+            from ..seams import HarnessError
+            raise HarnessError("events-mode log differs from FULL-mode log: "
+                               "%r" % (case,))
         s = rep.scope(sc)
         s["cases"] += 1
         s["executions"] += 1
@@ -183,7 +256,7 @@ def run(rep, tier, seed):
             rep.add_sample({"case": case, "outcome": outcome})
         for clause, cause, det in vs:
             rep.violation(clause, cause, {"engine": "E1", "case": case,
-                                          "light": False}, det, sc)
+                                          "light": mode}, det, sc)
     rep.extra["states_note"] = ("states = distinct (configuration, pause "
                                 "history) pairs executed in FULL mode")
     rep.confirm = replay
@@ -191,7 +264,7 @@ def run(rep, tier, seed):
 
 def replay(payload):
     case = payload["case"]
-    r, qw = execute(case)
+    r, qw = execute(case, payload.get("light", False) or False)
     if r.outcome != "returned":
         return []
     return [{"clause": a, "cause": b, "detail": c}
